@@ -13,6 +13,7 @@
  R6 lookups    resolver lookups are tested before use and the null edge reports / fails   (c04_lookup)
  R7 flags      a flag that decides a diagnostic inside a loop is re-assigned in that loop
  R8 nesting    every nested statement is resolved unless an error was already reported for its guard
+ R9 renames    a pending USE/REFERENCE item is matched under the key it is later stored under (AS names)
 """
 from engines import init_rows, str_of, known_facts, calls_in, peval
 from ir import walk, strip, expr_str, access_path
@@ -591,6 +592,62 @@ def r8(prog, res):
     res.floor("R8", "nested-statement resolutions in the statement resolver", n, 8)
 
 
+def r9(prog, res):
+    """A pending USE/REFERENCE item (uselist / reflist) is matched under the same name under which it is later entered into the
+    usedict / refdict: the key expression of SCHEMAdefine_use/_reference and the name compared by the scans over the pending
+    lists must be the same function of the Rename."""
+    import re
+
+    def norm(e, var):
+        t = re.sub(r"\s+", "", expr_str(e))
+        return re.sub(r"(?<![\w>.])%s(?=->|\.)" % re.escape(var), "R", t)
+    keys = {}
+    for name in ("SCHEMAdefine_use", "SCHEMAdefine_reference"):
+        f = prog.one(name)
+        if f is None:
+            res.broke("anchor vanished: %s" % name)
+            return
+        rp = [p for p in f.params if "Rename" in f.tyname(p["t"])]
+        defs = [c for c in f.calls("DICTdefine")] + [c for c in f.calls("DICT_define")]
+        if not rp or not defs:
+            res.broke("%s: Rename parameter / DICTdefine call not found" % name)
+            return
+        k = strip(defs[0]["ch"][1])
+        if k is not None and k["k"] == "Ref":
+            for x in f.walk():
+                if x["k"] == "Var" and x.get("d") == k.get("d") and x.get("ch"):
+                    k = strip(x["ch"][0])
+        keys[name] = norm(k, rp[0]["n"])
+    ok = len(set(keys.values())) == 1
+    res.add("R9.rename_key_agreement", "R9|src/express/schema.c|SCHEMAdefine_use/reference|same-key", "src/express/schema.c:115", ok,
+            "USE and REFERENCE items are entered under the same key expression: %s" % list(keys.values())[0] if ok else
+            "SCHEMAdefine_use and SCHEMAdefine_reference key their dictionaries differently: %s" % keys)
+    key = list(keys.values())[0]
+    n = 0
+    for f in prog.all_functions():
+        if f.component != "express":
+            continue
+        for c in f.calls():
+            if (c.get("fn") or "").split("::")[-1] not in ("strcmp", "__builtin_strcmp"):
+                continue
+            for a in c["ch"]:
+                a0 = strip(a)
+                # <...Rename...>->name
+                refs = [x for x in walk(a0) if x["k"] == "Ref" and "Rename" in f.ty(x)] if a0 is not None else []
+                if not refs or a0["k"] != "Member" or a0["n"] != "name":
+                    continue
+                # only scans over the pending lists
+                var = refs[0]
+                n += 1
+                got = norm(a0, var["n"])
+                okc = got == key
+                res.add("R9.rename_key_agreement", "R9|%s|%s|scan" % (f.relfile(), f.name), f.where(c), okc,
+                        "the pending item is matched under %s, the key it is later stored under" % got if okc else
+                        "%s matches a pending USE/REFERENCE item by %s, but the item is stored (and otherwise found) under %s: an item renamed "
+                        "with AS is found or missed depending on whether it was resolved before" % (f.name, got, key))
+    res.floor("R9", "name comparisons on pending USE/REFERENCE items", n, 1)
+
+
 def run(prog, res, tier):
     t = c20.table(prog, res)
     if t is None:
@@ -604,6 +661,7 @@ def run(prog, res, tier):
         r5(prog, res, tab, E)
     r7(prog, res)
     r8(prog, res)
+    r9(prog, res)
     try:
         from rules import c04_lookup
         c04_lookup.run(prog, res, tier)
